@@ -126,6 +126,19 @@ pub fn requester_case(rng: &mut Rng, keys: &mut Keys, cid: u64) -> (String, Hash
         let have = rt.block_on(async { blockstore.read().await.get_block(&bid).is_some() });
         (sent_txt, cf::list(&out), have)
     };
+    // a quarter of the cases: a few shreds of a SIBLING block of the same slot (the Byzantine leader's other slice 0)
+    // reached the node by dissemination before the repair starts; they belong to another block and must not keep
+    // correctly answered repair requests for this one from completing
+    if rng.chance(1, 4) {
+        let take = rng.range(1, 5) as usize;
+        let start = rng.below(60) as usize;
+        rt.block_on(async {
+            let mut g = blockstore.write().await;
+            for k in 0..take { let _ = g.add_shred_from_dissemination(w.alt[1].shreds[start + k].clone()).await; }
+        });
+        while brx.try_recv().is_ok() {}
+        *kinds.entry("sibling-disseminated-before-repair").or_default() += 1;
+    }
     // start
     { let r = &mut repair; let rt2 = &rt; let b2 = bid.clone(); let res = catch_unwind(AssertUnwindSafe(|| rt2.block_on(r.repair_block(b2)))); panicked |= res.is_err(); }
     let (s0, o0, h0) = observe(&repair, &net, &blockstore, &rt, &mut brx);
@@ -336,7 +349,7 @@ pub fn gen_c14(seed: u64, tier: Tier) -> CaseSet {
         descr.push(format!("case {}: responder, answers failing verification: {}, panicked: {}", cid, problems, panicked));
         cases.push(txt); cid += 1;
     }
-    stats.rule = "requester: a 1-2 slice block of a fresh leader is repaired through the real Repair state machine; for a randomly chosen outstanding request the next arriving response is correct (50%), the correct shred with its unsigned data / coding type tag flipped, a NACK, has a corrupted proof, the wrong variant, another (validly signed) slice's root, is a replay of an earlier response, unsolicited, a shred with another index, the right shred signed for another slot of the leader's window, the true root of a non-last slice offered as last slice (also after the block was handed to repair a second time), or a shred of a conflicting slice the (Byzantine) leader also signed; hostile responses routinely arrive before the correct one. responder: every request kind for existing / out-of-range slice and shred indices, a block it holds completely (sometimes with an unfinished repair of the same block filed earlier) or only partially, an unknown block, known and unknown senders; every positive answer is verified with the real check_proof / check_proof_last / ValidatedShred::try_new. non-trivial = distinct trace".into();
+    stats.rule = "requester: a 1-2 slice block of a fresh leader is repaired through the real Repair state machine (in a quarter of the cases after a few shreds of a sibling block of the same slot arrived by dissemination); for a randomly chosen outstanding request the next arriving response is correct (50%), the correct shred with its unsigned data / coding type tag flipped, a NACK, has a corrupted proof, the wrong variant, another (validly signed) slice's root, is a replay of an earlier response, unsolicited, a shred with another index, the right shred signed for another slot of the leader's window, the true root of a non-last slice offered as last slice (also after the block was handed to repair a second time), or a shred of a conflicting slice the (Byzantine) leader also signed; hostile responses routinely arrive before the correct one. responder: every request kind for existing / out-of-range slice and shred indices, a block it holds completely (sometimes with an unfinished repair of the same block filed earlier) or only partially, an unknown block, known and unknown senders; every positive answer is verified with the real check_proof / check_proof_last / ValidatedShred::try_new. non-trivial = distinct trace".into();
     let mut v: Vec<_> = kinds_total.into_iter().collect(); v.sort();
     stats.distribution.push(("response_kinds".into(), v.iter().map(|(k, c)| format!("{}={}", k, c)).collect::<Vec<_>>().join(", ")));
     stats.distribution.push(("requester_cases_completed".into(), format!("{} of {}", completed, nreq)));
